@@ -7,7 +7,8 @@
  * helper threads created by the library are cooperative threads of the deterministic runtime.
  *
  * build: gcc -DRCU_MEMBARRIER|-DRCU_MB callrcu.c vrt.c vrt_compat_futex.c compat_arch.c
- * run:   VRT_MEMBARRIER=0|1 callrcu --seed N --workers W --ops N --ncpus C [--admin] [--park] ...
+ * run:   VRT_MEMBARRIER=0|1 callrcu --seed N --workers W --ops N --ncpus C [--admin A] [--park] [--rt PCT] [--chain PCT]
+ *        [--predefault] [--nobarrier] [--oneshot K] + runtime options (--pswitch, --strategy pct|sweep, --preempt-at/-tid/-len, --faults …)
  *
  * Independent oracles (implementation side, plain C, no model):
  *   once:     every callback handed to call_rcu() has been invoked exactly once when the scenario ends
@@ -82,7 +83,7 @@ static int ncb;
 static long lclock = 1;
 static long in_cs_since[VRT_MAXT];	/* begin time of the outermost open section of thread tid, 0 = outside */
 static int depth[VRT_MAXT];
-static int nworkers = 2, nops = 40, use_admin, park, rtpct = 30, chainpct = 25, maxchain = 2, prebarrier;
+static int nworkers = 2, nops = 40, use_admin, park, rtpct = 30, chainpct = 25, maxchain = 2, prebarrier, oneshot, nobarrier;
 static int nworkers_done;
 
 /* heap objects of the library, named at allocation */
@@ -426,7 +427,7 @@ static void *worker(void *arg)
 		} else if (c < 64) {
 			if (depth[me] > 0) do_unlock();
 		} else if (c < 71) {
-			if (depth[me] == 0 || vrt_rand() % 4 == 0) do_barrier();
+			if (!nobarrier && (depth[me] == 0 || vrt_rand() % 4 == 0)) do_barrier();
 		} else if (c < 79) {
 			if (!myh) {
 				myh = do_create((int)(vrt_rand() % 100) < rtpct ? URCU_CALL_RCU_RT : 0, -1);
@@ -441,8 +442,11 @@ static void *worker(void *arg)
 			}
 		} else if (c < 84) {
 			set_my_cpu((int)(vrt_rand() % (vrt_cfg_ncpus > 0 ? vrt_cfg_ncpus : 1)));
-		} else if (c < 87) {
+		} else if (c < 86) {
 			if (depth[me] == 0) do_sync();
+		} else if (c < 87) {
+			/* silently refused: the default helper is where leftovers go */
+			if (default_call_rcu_data && depth[me] == 0) do_free(default_call_rcu_data);
 		} else if (c < 92 && park && depth[me] > 0) {
 			vrt_sleep(200 + vrt_rand() % 1200);
 		} else {
@@ -455,6 +459,35 @@ static void *worker(void *arg)
 		do_set_thread(NULL);
 		do_free(myh);
 	}
+	vrt_log("CALL unregister");
+	rcu_unregister_thread();
+	vrt_log("RET unregister");
+	nworkers_done++;
+	return NULL;
+}
+
+/* --oneshot K: minimal scenarios for the systematic one-preemption sweep (strategy sweep: non-preemptive base
+ * schedule + ONE forced preemption).  T0 = main, T1 = this thread, T2 = the default helper.
+ *   1: the helper is asleep when the single call_rcu() arrives (T1 parked first; force T1 inside the helper's
+ *      dec / empty-check / FUTEX_WAIT window);
+ *   2: the call_rcu() runs before the helper's first step (force T2 inside T1's enqueue / wake window);
+ *   3: as 2, followed by rcu_barrier() at once (force T2 inside the barrier's dec / count test / FUTEX_WAIT window);
+ *   4: as 1 with a re-enqueueing callback.
+ * A lost wake-up leaves the final rcu_barrier() (or this one) blocked for ever = DEADLOCK of the runtime. */
+static void *oneshot_thread(void *arg)
+{
+	int me = vrt_self();
+	(void)arg;
+	vrt_name(&URCU_TLS(rcu_reader).ctr, sizeof(unsigned long), "reader%d.ctr", me);
+	vrt_log("WORKER 1");
+	vrt_log("CALL register");
+	rcu_register_thread();
+	vrt_log("RET register");
+	if (oneshot == 1 || oneshot == 4)
+		vrt_sleep(1000000);
+	do_call_rcu(oneshot == 4 ? 1 : 0);
+	if (oneshot == 3)
+		do_barrier();
 	vrt_log("CALL unregister");
 	rcu_unregister_thread();
 	vrt_log("RET unregister");
@@ -531,6 +564,8 @@ int main(int argc, char **argv)
 		else if (!strcmp(argv[i], "--rt") && i + 1 < argc) rtpct = atoi(argv[++i]);
 		else if (!strcmp(argv[i], "--chain") && i + 1 < argc) chainpct = atoi(argv[++i]);
 		else if (!strcmp(argv[i], "--predefault")) prebarrier = 1;
+		else if (!strcmp(argv[i], "--oneshot") && i + 1 < argc) oneshot = atoi(argv[++i]);
+		else if (!strcmp(argv[i], "--nobarrier")) nobarrier = 1;
 	}
 	if (nworkers > MAXW) nworkers = MAXW;
 	if (nworkers < 1) nworkers = 1;
@@ -555,13 +590,20 @@ int main(int argc, char **argv)
 #else
 	vrt_raw("CFG flavor=mb membarrier=0 ncpus=%d workers=%d admin=%d", vrt_cfg_ncpus, nworkers, use_admin);
 #endif
-	if (prebarrier) {
+	if (prebarrier && !nobarrier) {
 		/* rcu_barrier() with no helper at all, then the default helper created eagerly */
 		do_barrier();
 		vrt_log("CALL get_default");
 		vrt_log("RET get_default crd%d", crd_id(get_default_call_rcu_data()));
 	}
-	for (i = 0; i < nworkers; i++)
+	if (oneshot) {
+		nworkers = 1;
+		use_admin = 0;
+		wt[0] = vrt_spawn("worker", oneshot_thread, NULL);
+		vrt_log("CALL get_default");
+		vrt_log("RET get_default crd%d", crd_id(get_default_call_rcu_data()));
+	}
+	for (i = 0; i < nworkers && !oneshot; i++)
 		wt[i] = vrt_spawn("worker", worker, (void *)(long)(i + 1));
 	for (i = 0; i < use_admin; i++)
 		at[na++] = vrt_spawn("admin", admin, (void *)(long)i);
@@ -572,19 +614,40 @@ int main(int argc, char **argv)
 	/* teardown: per-CPU helpers (leftovers go to the default helper), then one barrier per generation */
 	vrt_log("FINAL");
 	do_free_all();
-	for (i = 0; i <= maxchain; i++)
-		do_barrier();
+	if (nobarrier) {
+		/* C03 runs that do not execute rcu_barrier() at all: wait (logical time) until every callback has run */
+		int k, left = 1;
+		for (k = 0; k < 4000 && left; k++) {
+			left = 0;
+			for (i = 1; i <= ncb; i++)
+				if (!cbs[i]->finished)
+					left = 1;
+			if (left)
+				vrt_sleep(40);
+		}
+	} else
+		for (i = 0; i <= maxchain; i++)
+			do_barrier();
 	for (i = 1; i <= ncb; i++)
 		if (cbs[i]->invoked != 1 || !cbs[i]->finished)
 			vrt_fail("once", "callback %d invoked %d times (finished=%d) at the end of the run", i, cbs[i]->invoked, cbs[i]->finished);
-	/* stop the default helper through the library's own exit path */
-	vrt_log("CALL exit");
-	urcu_call_rcu_exit();
-	vrt_log("RET exit");
-	if (default_call_rcu_data != NULL)
-		vrt_fail("once", "default helper still has callbacks queued at exit");
+	/* stop the default helper through the library's own exit path (not under the sweep strategy: its
+	 * lowest-tid-first rule would let the main thread's poll loop starve the helper's poll) */
+	if (!oneshot) {
+		vrt_log("CALL exit");
+		urcu_call_rcu_exit();
+		vrt_log("RET exit");
+		if (default_call_rcu_data != NULL)
+			vrt_fail("once", "default helper still has callbacks queued at exit");
+	}
 	poison_check();
 	vrt_raw("# SUMMARY callbacks=%d helpers=%d barriers=%d", ncb, ncrd, ncompl);
+	if (oneshot) {
+		/* the default helper stays asleep (no exit path, see above): end the run without joining it */
+		vrt_raw("# END oneshot failed=%d", vrt_failed);
+		fflush(NULL);
+		_exit(vrt_failed ? 3 : 0);
+	}
 	vrt_finish();
 	return vrt_failed ? 3 : 0;
 }
